@@ -53,7 +53,7 @@ mod __verif_kani {
         c
     }
 
-    //@ kind=I props=C17 tier=thorough bound=5_positions,text_len=130 fn=AdvancePositions::{build_unchecked,get,get_sequential,get_random,advance_cursor_to,advance_rank1,ib_select1_with_state} : for every non-decreasing sequence of 5 positions <= text_len and ANY cursor state satisfying the invariant (whatever earlier lookups left behind): get(i) returns exactly the recorded position i (None past the end) and leaves a cursor satisfying the invariant; the default cursor satisfies it
+    //@ kind=B props=C17 tier=thorough bound=5_positions,text_len=130 fn=AdvancePositions::{build_unchecked,get,get_sequential,get_random,advance_cursor_to,advance_rank1,ib_select1_with_state} : for every non-decreasing sequence of 5 positions <= text_len and ANY cursor state satisfying the invariant (whatever earlier lookups left behind): get(i) returns exactly the recorded position i (None past the end) and leaves a cursor satisfying the invariant; the default cursor satisfies it
     #[kani::proof]
     #[kani::unwind(70)]
     #[kani::stub(crate::util::broadword::select_in_word, contract_select_in_word)]
